@@ -220,6 +220,15 @@ func Mod(seq uint32, seid uint64, takeover string, ops ...RuleOp) []byte {
 	return marshal(message.NewSessionModificationRequest(0, 0, seid, seq, 0, ies...))
 }
 
+// ModRawNode is Mod with a Node ID IE of the given raw payload (e.g. an undecodable one).
+func ModRawNode(seq uint32, seid uint64, node []byte, ops ...RuleOp) []byte {
+	ies := []*ie.IE{ie.New(ie.NodeID, node)}
+	for _, o := range ops {
+		ies = append(ies, o.IE())
+	}
+	return marshal(message.NewSessionModificationRequest(0, 0, seid, seq, 0, ies...))
+}
+
 func Del(seq uint32, seid uint64) []byte {
 	return marshal(message.NewSessionDeletionRequest(0, 0, seid, seq, 0))
 }
